@@ -51,6 +51,7 @@
 #include "ConfigParser.h"
 #include "base/TextException.h"
 #include "cache_cf.h"
+#include "ip/tools.h"
 
 // FactoryParse() reports a bad token through self_destruct(); squid would stop.
 struct SelfDestruct {};
@@ -158,6 +159,9 @@ static void armCpuLimit(long ms)
 int main()
 {
     signal(SIGVTALRM, onCpuLimit);
+    // what Ip::ProbeTransport() finds on an ordinary dual-stack host; without it
+    // FactoryParse() discards every IPv6 token ("IPv6 has not been enabled")
+    Ip::EnableIpv6 = IPV6_SPECIAL_V4MAPPING;
     std::string line;
     while (std::getline(std::cin, line)) {
         auto a = splitws(line);
